@@ -11,6 +11,7 @@ package main
 import (
 	"fmt"
 	"go/types"
+	"sort"
 	"strings"
 
 	"golang.org/x/tools/go/ssa"
@@ -390,6 +391,110 @@ func runPairedRules(p *Program, id string) ([]*Gen, []string) {
 		}
 		if n == 0 {
 			errs = append(errs, "contract-stale: paired rule "+name+" matches no site")
+		}
+		gens = append(gens, g)
+	}
+	return gens, errs
+}
+
+// Decision coverage: a classification that is recorded at a site (e.g. "this function is empty, calls to it may be
+// dropped") must have LOOKED at every field that can make it wrong. Each listed field must occur in the backward
+// data cone of at least one branch condition that dominates the site.
+//
+//	//@ decides NAME PROPS...: func=F ; in=pkg ; site=SITE ; when=PATTERN ; must=T.f,T.g ; scenario=T
+func runDecidesRules(p *Program, id string) ([]*Gen, []string) {
+	var gens []*Gen
+	var errs []string
+	for _, d := range p.CS.Dirs {
+		if d.Kind != "decides" {
+			continue
+		}
+		j := strings.Index(d.Text, ":")
+		if j < 0 {
+			continue
+		}
+		head := strings.Fields(d.Text[:j])
+		if len(head) == 0 || !hasProp(head[1:], id) {
+			continue
+		}
+		name := head[0]
+		kv := map[string]string{}
+		for _, part := range strings.Split(d.Text[j+1:], ";") {
+			part = strings.TrimSpace(part)
+			if k := strings.Index(part, "="); k > 0 {
+				kv[strings.TrimSpace(part[:k])] = strings.TrimSpace(part[k+1:])
+			}
+		}
+		var sp *ssa.Package
+		for path, x := range p.Pkgs {
+			if x.Pkg.Name() == kv["in"] && strings.HasPrefix(path, modPath) {
+				sp = x
+			}
+		}
+		if sp == nil {
+			errs = append(errs, "contract-stale: decides "+name+": package not loaded")
+			continue
+		}
+		fn := p.LookupFunc(sp.Pkg.Path(), kv["func"])
+		if fn == nil {
+			errs = append(errs, "contract-stale: decides "+name+": function "+kv["func"]+" not found")
+			continue
+		}
+		g := NewGen(p, nil, nil)
+		g.Label = "decides " + name
+		var fns []*ssa.Function
+		var collect func(f *ssa.Function)
+		collect = func(f *ssa.Function) {
+			fns = append(fns, f)
+			for _, a := range f.AnonFuncs {
+				collect(a)
+			}
+		}
+		collect(fn)
+		n := 0
+		for _, f := range fns {
+			for _, b := range f.Blocks {
+				for _, in := range b.Instrs {
+					desc, ok := siteMatches(p, kv["site"], in)
+					if !ok {
+						continue
+					}
+					if w := kv["when"]; w != "" {
+						st, isSt := in.(*ssa.Store)
+						if !isSt || !pathMatches(valuePath(st.Val), w) {
+							continue
+						}
+					}
+					n++
+					seen := map[ssa.Value]bool{}
+					fields := map[string]bool{}
+					for _, fct := range domFacts(in) {
+						if fct.cond != nil {
+							fieldsInCone(fct.cond, seen, fields, 0)
+						}
+					}
+					for _, want := range splitList(kv["must"], ",") {
+						o := &Oblig{Name: fmt.Sprintf("%s.%s#decides:%s.%d.%s", kv["in"], kv["func"], name, n, want), Kind: "decides", Goal: "true", Pre: "unsat", AutoSite: true,
+							Pos:  strings.TrimPrefix(p.Fset.Position(in.Pos()).String(), p.Repo+"/"),
+							Text: "decides " + name + ": " + desc + " is decided by conditions that read " + want}
+						if !fields[want] {
+							var have []string
+							for k := range fields {
+								have = append(have, k)
+							}
+							sort.Strings(have)
+							o.Pre = "sat"
+							o.Model = "no condition that dominates the site reads " + want + " (fields read: " + strings.Join(have, ", ") + ")"
+							o.ReplayTemplate = kv["scenario"]
+							o.ReplayPkgDir = strings.TrimPrefix(strings.TrimPrefix(d.Pkg, modPath), "/")
+						}
+						g.Obligs = append(g.Obligs, o)
+					}
+				}
+			}
+		}
+		if n == 0 {
+			errs = append(errs, "contract-stale: decides rule "+name+" matches no site")
 		}
 		gens = append(gens, g)
 	}
